@@ -3,6 +3,15 @@
 // credentials it is refused.  The method text is compiled verbatim; `String` is a heap-free inline string of at most
 // MAXS ASCII bytes that derefs to a real `str`, so byte-level rewrites of the comparison are executed, not modelled.
 #![allow(dead_code, unused_variables, unused_macros, static_mut_refs, unused_imports, unused_mut)]
+// `tracing::level!(..)` written with its path by an edit keeps compiling (log statements have no effect on the checks)
+pub mod tracing {
+    macro_rules! trace { ($($t:tt)*) => { () } }
+    macro_rules! debug { ($($t:tt)*) => { () } }
+    macro_rules! info { ($($t:tt)*) => { () } }
+    macro_rules! warn_ { ($($t:tt)*) => { () } }
+    macro_rules! error { ($($t:tt)*) => { () } }
+    pub(crate) use {trace, debug, info, warn_ as warn, error};
+}
 macro_rules! trace { ($($t:tt)*) => { () } }
 pub const MAXS: usize = 2;
 pub const MAXU: usize = 2;
